@@ -308,11 +308,21 @@ func (s *StateMachine) ApplyTransactions(ctx context.Context, txs [][]byte, r *l
 	if s.Metrics != nil {
 		s.Metrics.ApplyTxsBatchVerifyTime.Observe(batchVerifyDuration.Seconds())
 	}
-	// set the store back to the original at the end of processing
-	originalStore := s.Store().(lib.StoreI)
-	defer s.SetStore(originalStore)
 	// create a variable to track if the block is over size
 	var oversize bool
+	// snapshot the slash tracker as of the last transaction that fits in the block
+	var preOversizeSlashTracker *SlashTracker
+	// set the store back to the original at the end of processing
+	originalStore := s.Store().(lib.StoreI)
+	defer func() {
+		s.SetStore(originalStore)
+		// the 'oversize' transactions were applied to a database transaction that is dropped here; also drop what
+		// they left in the FSM caches and trackers, otherwise end-block reads balances the block doesn't contain
+		if oversize {
+			s.ResetCaches()
+			s.slashTracker = preOversizeSlashTracker
+		}
+	}()
 	var executeDuration, flushDuration time.Duration
 	// iterates over each transaction in the block
 	for i, tx := range txs {
@@ -341,6 +351,7 @@ func (s *StateMachine) ApplyTransactions(ctx context.Context, txs [][]byte, r *l
 			}
 			// set oversize to 'true'
 			oversize = true
+			preOversizeSlashTracker = s.slashTracker.Clone()
 			// wrap the store in a 'database transaction' to rollback all the 'oversize transactions'
 			if _, e := s.TxnWrap(); e != nil {
 				return e
